@@ -163,6 +163,7 @@ PropGeomOK(w, c) == \A bi \in 1..Len(w.beams) :
 
 PropagateDft(w, c) ==
     IF Flip(w.ptype) = "bad" THEN [w EXCEPT !.err = "TypeError"]
+    ELSE IF \E bi \in 1..Len(w.beams) : w.beams[bi].sh = None THEN [w EXCEPT !.err = "Undefined"]   \* no sampled plane yet
     ELSE IF ~PropGeomOK(w, c) THEN [w EXCEPT !.err = "RingTooSmall"]     \* machinery: N chosen too small by the driver
     ELSE LET a == Alpha(w, c)
              osh == OutShape(c)
@@ -239,6 +240,17 @@ ThmSegments(w, c) ==
     LET whole == [sh |-> w.shape, d |-> FieldOf(w), tilts |-> <<>>] IN
     (\A bi \in 1..Len(w.beams) : w.beams[bi].tilts = <<>>) =>
         MatSame(PropagateDft(w, c).beams[1].d, PropBeam(w, c, whole))
+\* C05: Parseval on a zero-padded full period.  When 1/alpha = K is an integer on each axis, the canvas is not
+\* larger than K and the output covers the K x K period, SUM |F|^2 = K_r K_c SUM |f|^2 in the ring, so with the
+\* unitary factor |alpha_r alpha_c| = 1/(K_r K_c) the total intensity equals the input power exactly.
+ThmEnergy(w, c) ==
+    LET a == Alpha(w, c)
+        osh == OutShape(c)
+        whole == FieldOf(w)
+        g == Geom(a, <<R(0), R(0)>>, osh)
+    IN (a[1][1] = 1 /\ a[2][1] = 1 /\ osh = <<a[1][2], a[2][2]>> /\ w.shape[1] <= osh[1] /\ w.shape[2] <= osh[2]) =>
+          Eq(Energy(Forward(whole, g)), Scale(osh[1] * osh[2], Energy(whole)))
+
 \* C04: a tilt element is the same as the corresponding linear phase ramp in the beam
 \* ramp with integer exponent steps (kr, kc) per sample  <=>  displacement (kr/(N alpha_r), kc/(N alpha_c)) samples
 RampBeam(b, kr, kc) == [b EXCEPT !.d = TLCEval([i \in 1..b.sh[1] |-> TLCEval([j \in 1..b.sh[2] |->
